@@ -6,8 +6,10 @@ package c12
 import (
 	"encoding/base64"
 	"fmt"
+	"math/rand"
 	"sort"
 	"strings"
+	"sync"
 	"testing"
 	"time"
 
@@ -424,4 +426,90 @@ func granted2(e *env, a, b string) map[string]bool {
 		g[k] = true
 	}
 	return g
+}
+
+// TestTamperWhileOthersAuthorize: the attacker presents modified keys while other clients of the same broker are being
+// authorized with powerful keys at the same moment. A modified key may not pick up anything from them: what it grants
+// must be what it grants when it is presented alone (computed beforehand, sequentially), which in turn is within what
+// the original key grants unless the modification falls under a listed finding (those are left out here).
+func TestTamperWhileOthersAuthorize(t *testing.T) {
+	rounds := vkit.N(6)
+	for round := 0; round < rounds; round++ {
+		v := 1 + round%3
+		e := getEnv(v)
+		rng := rand.New(rand.NewSource(vkit.Seed() + int64(round)))
+		weak := issue(e, KeySpec{Perm: security.AllowRead, Target: "a/", Expiry: "none", Salt: uint16(rng.Intn(65536))})
+		strongKeys := []string{issue(e, KeySpec{Perm: security.AllowAll &^ security.AllowMaster, Target: "#/", Expiry: "none", Salt: uint16(rng.Intn(65536))}), e.b.Master,
+			issue(e, KeySpec{Perm: security.AllowReadWrite | security.AllowStore | security.AllowPresence, Target: "b/", Expiry: "none", Salt: uint16(rng.Intn(65536))})}
+		// modifications that are rejected or harmless when presented alone: garbled signature / contract bytes, characters
+		// outside the alphabet, truncation; each with its sequential grant set as the reference
+		type att struct {
+			mod  string
+			want map[string]bool
+		}
+		var atts []att
+		orig := granted(e, weak)
+		for i := 0; i < 40; i++ {
+			m := []byte(weak)
+			switch i % 4 {
+			case 0:
+				m[5+rng.Intn(10)] = alphabet[rng.Intn(64)]
+			case 1:
+				m[rng.Intn(32)] = outsideBytes[rng.Intn(len(outsideBytes))]
+			case 2:
+				m[10], m[11] = m[11], m[10]
+			case 3:
+				m = m[:31-rng.Intn(3)]
+			}
+			w := granted(e, string(m))
+			escalates := false
+			for k := range w {
+				if !orig[k] {
+					escalates = true // a listed finding (stream-cipher malleability) when presented alone: not this leg's subject
+				}
+			}
+			if !escalates {
+				atts = append(atts, att{string(m), w})
+			}
+		}
+		stop := make(chan struct{})
+		var wg sync.WaitGroup
+		for g := 0; g < 4; g++ {
+			wg.Add(1)
+			go func(g int) {
+				defer wg.Done()
+				ch := []string{"secret/", "b/", "zz/top/"}
+				for i := 0; ; i++ {
+					select {
+					case <-stop:
+						return
+					default:
+					}
+					e.b.S.Authorize(security.ParseChannel([]byte(strongKeys[(i+g)%len(strongKeys)]+"/"+ch[i%3])), security.AllowWrite)
+				}
+			}(g)
+		}
+		fail := ""
+	attack:
+		for it := 0; it < 30; it++ {
+			for _, a := range atts {
+				got := granted(e, a.mod)
+				for k := range got {
+					if !a.want[k] {
+						fail = fmt.Sprintf("license v%d: modified key %q (from a read key for a/), presented while other clients are authorized with powerful keys, gains %s; presented alone it grants %d probe operations, the original %d",
+							v, a.mod, k, len(a.want), len(orig))
+						break attack
+					}
+				}
+			}
+		}
+		close(stop)
+		wg.Wait()
+		c := map[string]int{"round": round, "license": v, "modified-keys": len(atts)}
+		if fail != "" {
+			vkit.ReportFailure(t.Name(), c, fail, "")
+			t.Fatal(fail)
+		}
+		vkit.Record(t.Name(), c, vkit.OK(true, "tamper-concurrent"))
+	}
 }
